@@ -249,7 +249,9 @@ func (g *gen) execE2E(in *Input, vc *verifiable.W3CCredential, r *result) {
 	doc := []byte(in.Cred)
 	switch in.E2E.Kind {
 	case "doc":
-		doc = []byte(in.ModCred)
+		if in.Mode != "inplace" {
+			doc = []byte(in.ModCred)
+		}
 	case "claim":
 		s, err := parseSlots(in.ModClaim)
 		if err != nil {
@@ -295,6 +297,21 @@ func (g *gen) execE2E(in *Input, vc *verifiable.W3CCredential, r *result) {
 	if pt == "" {
 		pt = produced
 	}
+	if in.Mode == "inplace" && in.E2E.Kind == "doc" {
+		// verify the honest bundle, then edit the same Go value in place and verify again
+		first := full.VerifyProof(bg, pt, resolver,
+			verifiable.WithStatusResolverRegistry(&reg), verifiable.VerifWithMerklizeOptions(g.mzOpts(0)...))
+		r.firstClass = "accept"
+		if first != nil {
+			r.firstClass = "reject"
+		}
+		m, perr := parseVC(in.ModCred)
+		if perr != nil {
+			r.class, r.msg = "skipped", "modified credential does not parse: "+perr.Error()
+			return
+		}
+		assignInPlace(full, m)
+	}
 	err = full.VerifyProof(bg, pt, resolver,
 		verifiable.WithStatusResolverRegistry(&reg), verifiable.VerifWithMerklizeOptions(g.mzOpts(0)...))
 	acc := err == nil
@@ -323,6 +340,9 @@ func (g *gen) judgeE2E(in *Input, r *result) {
 			rep.Fail("c06-e2e-complete-rejected", "VerifyProof rejects an honest bundle: "+r.e2eMsg, in)
 		}
 	case "doc", "claim":
+		if in.Mode == "inplace" && r.firstClass == "reject" {
+			rep.Fail("c06-e2e-complete-rejected", "VerifyProof rejects the honest bundle before the in-place edit", in)
+		}
 		if in.Bound && *r.e2eAccept {
 			rep.Fail("c06-e2e-tamper-accepted", "VerifyProof accepts a bundle modified at "+in.Site, in)
 		}
@@ -383,6 +403,12 @@ func (g *gen) generateE2E(schs []*schemaInfo) {
 					in.E2E.Proof = "smt"
 				}
 				ins = append(ins, in)
+				if mi%4 == 0 || g.cfg.Thorough() {
+					ip := *in
+					e := *in.E2E
+					ip.E2E, ip.Mode = &e, "inplace"
+					ins = append(ins, &ip)
+				}
 			}
 			vc, _ := parseVC(c.Cred)
 			g.register(c)
